@@ -97,12 +97,13 @@ func ruleC12TokenWhitespace(c *Ctx) {
 		return s, strings.ContainsAny(s, " \t\r\n")
 	}
 	n := 0
+	_ = lst
+	inL := map[*ssa.Function]bool{}
+	for _, fn := range listenerFuncs(c) {
+		inL[fn] = true
+	}
 	for _, fn := range c.prodFuncs("ast") {
-		root := fn
-		for root.Parent() != nil {
-			root = root.Parent()
-		}
-		inListener := root.Signature.Recv() != nil && namedOf(root.Signature.Recv().Type()) == lst
+		inListener := inL[fn]
 		for _, b := range fn.Blocks {
 			for _, in := range b.Instrs {
 				var ops []ssa.Value
@@ -405,114 +406,157 @@ func ruleC12Listener(c *Ctx) {
 	p := c.P
 	popNode := p.Method("ast", "ToBoltListener", "popNode")
 	blNode := p.Named("ast", "BooleanLogicExprNode")
+	push := p.Method("ast", "ToBoltListener", "pushStack")
+	fieldIdx := func(n *types.Named, name string) string {
+		st, _ := n.Underlying().(*types.Struct)
+		for i := 0; st != nil && i < st.NumFields(); i++ {
+			if st.Field(i).Name() == name {
+				return fmt.Sprintf(".f%d", i)
+			}
+		}
+		return ".f?"
+	}
+	// the listener's Exit hooks, decided by running them on a stack with operands and no latched error: which
+	// operands are popped in which order, and what is pushed (type and fields of the new node).  Helpers
+	// between the hook and the push (operand structs, shared constructors) are expanded/followed.
+	listenerOracle := func(v ssa.Value) (AV, bool) {
+		if call, ok := v.(*ssa.Call); ok {
+			if isCallTo(call, popNode) {
+				node := AV{Kind: "nonnil", Sym: fmt.Sprintf("pop:%p", call)}
+				if tup, isTup := call.Type().(*types.Tuple); isTup {
+					// a variant that also reports success: the operand is there
+					out := AV{Kind: "tuple", Tup: []AV{node}}
+					for i := 1; i < tup.Len(); i++ {
+						if isBoolType(tup.At(i).Type()) {
+							out.Tup = append(out.Tup, avBool(true))
+						} else {
+							out.Tup = append(out.Tup, AV{Kind: "nil"})
+						}
+					}
+					return out, true
+				}
+				return node, true
+			}
+			if invokeNamed(call, "HasError") {
+				return avBool(false), true
+			}
+		}
+		if u, ok := v.(*ssa.UnOp); ok && u.Op == token.MUL {
+			if f, _ := loadedField(u); f != nil {
+				if bt, isB := f.Type().Underlying().(*types.Basic); isB && bt.Kind() == types.Bool {
+					return avBool(false), true // debug switches
+				}
+			}
+		}
+		// a hook that looks at what kind of node the operand is: assume the operand is of that kind (the
+		// result must not depend on it)
+		if ta, ok := v.(*ssa.TypeAssert); ok {
+			if call, isCall := ta.X.(*ssa.Call); isCall && isCallTo(call, popNode) {
+				node := AV{Kind: "nonnil", Sym: fmt.Sprintf("pop:%p", call)}
+				if ta.CommaOk {
+					return AV{Kind: "tuple", Tup: []AV{node, avBool(true)}}, true
+				}
+				return node, true
+			}
+		}
+		return AV{}, false
+	}
+	runHook := func(fn *ssa.Function) (pops []string, pushes []CallEvent, err string) {
+		evs, e := DecideCalls(fn, listenerOracle, func(ci ssa.CallInstruction) bool { return isCallTo(ci, popNode) || isCallTo(ci, push) })
+		if e != "" {
+			return nil, nil, e
+		}
+		for _, ev := range evs {
+			if isCallTo(ev.Call, popNode) {
+				pops = append(pops, fmt.Sprintf("pop:%p", ev.Call))
+			} else {
+				pushes = append(pushes, ev)
+			}
+		}
+		return
+	}
 	for _, w := range []struct{ m, op string }{{"ExitAndExpr", "AndOp"}, {"ExitOrExpr", "OrOp"}} {
 		fn := p.SSAFunc(p.Method("ast", "ToBoltListener", w.m))
 		c.Analysed(FnName(fn))
 		opK := constInt(p.Obj("ast", w.op))
-		var pops []*ssa.Call
-		for _, call := range callsIn(fn) {
-			if isCallTo(call, popNode) {
-				pops = append(pops, call.(*ssa.Call))
-			}
+		pops, pushes, err := runHook(fn)
+		if err != "" {
+			c.Undecided("C12.LISTENER", FnName(fn), p.Pos(fn.Pos()), "the hook could not be evaluated: "+err)
+			continue
 		}
-		ok := len(pops) == 2
-		why := fmt.Sprintf("expected exactly two operand pops, found %d", len(pops))
-		if ok {
-			// first pop dominates second (source order); stores: right = first, left = second, op = const
-			first, second := pops[0], pops[1]
-			if !(first.Block().Dominates(second.Block()) && (first.Block() != second.Block() || instrIndex(first) < instrIndex(second))) {
-				first, second = second, first
+		ok, why := true, ""
+		switch {
+		case len(pops) != 2:
+			ok, why = false, fmt.Sprintf("expected exactly two operand pops, found %d", len(pops))
+		case len(pushes) != 1:
+			ok, why = false, fmt.Sprintf("expected exactly one push, found %d", len(pushes))
+		default:
+			ev := pushes[0]
+			last := len(ev.Args) - 1
+			if ev.ArgTypes[last] == nil || namedOf(ev.ArgTypes[last]) != blNode {
+				ok, why = false, "what is pushed is not a new BooleanLogicExprNode"
+				break
 			}
-			var gotL, gotR ssa.Value
-			var gotOp int64 = -1
-			for _, b := range fn.Blocks {
-				for _, in := range b.Instrs {
-					st, isSt := in.(*ssa.Store)
-					if !isSt {
-						continue
-					}
-					f, base := fieldOfAddr(st.Addr)
-					if f == nil || namedOf(base.Type()) != blNode {
-						continue
-					}
-					switch f.Name() {
-					case "left":
-						gotL = st.Val
-					case "right":
-						gotR = st.Val
-					case "op":
-						if k, isK := st.Val.(*ssa.Const); isK && k.Value != nil {
-							gotOp, _ = constant.Int64Val(k.Value)
-						}
-					}
-				}
+			f := ev.ArgFields[last]
+			l, r, o := f[fieldIdx(blNode, "left")], f[fieldIdx(blNode, "right")], f[fieldIdx(blNode, "op")]
+			gotOp := int64(-1)
+			if o.Kind == "const" {
+				gotOp, _ = constant.Int64Val(o.C)
 			}
-			ok = gotL == ssa.Value(second) && gotR == ssa.Value(first) && gotOp == opK
-			why = "the node is not built as {left: second-popped, right: first-popped, op: " + w.op + "}"
+			if l.Sym != pops[1] || r.Sym != pops[0] || gotOp != opK {
+				ok, why = false, "the node is not built as {left: second-popped, right: first-popped, op: "+w.op+"}"
+			}
 		}
 		c.Check(ok, "C12.LISTENER", FnName(fn), p.Pos(fn.Pos()), "pops right then left and builds {left, right, "+w.op+"} in source order", why)
 	}
-	// ExitNotExpr wraps exactly one popped node
+	// ExitNotExpr wraps exactly one popped node: every push is a fresh UntypedNotExprNode whose operand is the
+	// popped node itself, and the popped operand is not modified (negation applies to the whole operand,
+	// parenthesised or not)
 	ne := p.SSAFunc(p.Method("ast", "ToBoltListener", "ExitNotExpr"))
-	nPop := 0
-	for _, call := range callsIn(ne) {
-		if isCallTo(call, popNode) {
-			nPop++
-		}
-	}
-	c.Check(nPop == 1, "C12.LISTENER", FnName(ne), p.Pos(ne.Pos()), "wraps exactly one popped operand", "NOT does not wrap exactly one operand")
-	// every push is a fresh UntypedNotExprNode whose operand is the popped node itself, and the popped
-	// operand is not modified (negation applies to the whole operand, parenthesised or not)
+	c.Analysed(FnName(ne))
 	{
-		push := p.Method("ast", "ToBoltListener", "pushStack")
 		notT := p.Named("ast", "UntypedNotExprNode")
-		okNot, whyNot := true, ""
-		nPush := 0
-		var popped ssa.Value
-		for _, call := range callsIn(ne) {
-			if isCallTo(call, popNode) {
-				popped = call.(*ssa.Call)
+		pops, pushes, err := runHook(ne)
+		if err != "" {
+			c.Undecided("C12.LISTENER", FnName(ne), p.Pos(ne.Pos()), "the hook could not be evaluated: "+err)
+		} else {
+			c.Check(len(pops) == 1, "C12.LISTENER", FnName(ne), p.Pos(ne.Pos()), "wraps exactly one popped operand", "NOT does not wrap exactly one operand")
+			okNot, whyNot := len(pushes) == 1, "not exactly one node is pushed"
+			if okNot && len(pops) == 1 {
+				ev := pushes[0]
+				last := len(ev.Args) - 1
+				if ev.ArgTypes[last] == nil || namedOf(ev.ArgTypes[last]) != notT {
+					okNot, whyNot = false, "something other than a new UntypedNotExprNode is pushed"
+				} else {
+					wraps := false
+					for _, fv := range ev.ArgFields[last] {
+						if fv.Sym == pops[0] {
+							wraps = true
+						}
+					}
+					if !wraps {
+						okNot, whyNot = false, "the pushed node does not wrap the popped operand as a whole"
+					}
+				}
 			}
-		}
-		for _, call := range callsIn(ne) {
-			if !isCallTo(call, push) {
-				continue
-			}
-			nPush++
-			mi, isMI := call.Common().Args[1].(*ssa.MakeInterface)
-			if !isMI || namedOf(mi.X.Type()) != notT {
-				okNot, whyNot = false, "something other than a new UntypedNotExprNode is pushed"
-				continue
-			}
-			alloc, isA := mi.X.(*ssa.Alloc)
-			wraps := false
-			if isA {
-				for _, r := range *alloc.Referrers() {
-					if fa, ok := r.(*ssa.FieldAddr); ok {
-						for _, r2 := range *fa.Referrers() {
-							if st, ok := r2.(*ssa.Store); ok && st.Val == popped {
-								wraps = true
+			// the popped operand is never written to (stores go to objects built here only)
+			for _, fn2 := range allFuncsWithAnon(ne) {
+				for _, b := range fn2.Blocks {
+					for _, in := range b.Instrs {
+						if st, ok := in.(*ssa.Store); ok {
+							if _, base := fieldOfAddr(st.Addr); base != nil {
+								if !isFreshAlloc(base) {
+									if _, isRecvField := base.(*ssa.Parameter); !isRecvField {
+										okNot, whyNot = false, "the operand node is modified in place"
+									}
+								}
 							}
 						}
 					}
 				}
 			}
-			if !wraps {
-				okNot, whyNot = false, "the pushed node does not wrap the popped operand as a whole"
-			}
+			c.Check(okNot, "C12.LISTENER", FnName(ne)+": negates the whole operand", p.Pos(ne.Pos()), "pushes UntypedNotExprNode{expr: popped} and never rewrites the operand", "`not (P)` is not built as the negation of the whole operand: "+whyNot)
 		}
-		for _, b := range ne.Blocks {
-			for _, in := range b.Instrs {
-				if st, ok := in.(*ssa.Store); ok {
-					if _, base := fieldOfAddr(st.Addr); base != nil {
-						if _, fresh := base.(*ssa.Alloc); !fresh {
-							okNot, whyNot = false, "the operand node is modified in place"
-						}
-					}
-				}
-			}
-		}
-		c.Check(okNot && nPush >= 1, "C12.LISTENER", FnName(ne)+": negates the whole operand", p.Pos(ne.Pos()), "pushes UntypedNotExprNode{expr: popped} and never rewrites the operand", "`not (P)` is not built as the negation of the whole operand: "+whyNot)
 	}
 	// Group: the bolt listener must not override Enter/ExitGroup (parentheses act through tree shape only)
 	tbl := p.Named("ast", "ToBoltListener")
@@ -522,106 +566,138 @@ func ruleC12Listener(c *Ctx) {
 		own := f != nil && namedOf(recvType(f)) == tbl
 		c.Check(!own, "C12.LISTENER", "ast.ToBoltListener."+m, p.Pos(tbl.Obj().Pos()), "not overridden: parentheses do not touch the operand stack", "the listener overrides "+m+": parentheses would manipulate the operand stack")
 	}
-	// typing: AndOp -> AndExprNode{left,right}, OrOp -> OrExprNode{left,right}
+	// typing: AndOp -> AndExprNode{left,right}, OrOp -> OrExprNode{left,right} — decided by running the
+	// transform for each connective with two bool operands that need no further transformation: the result
+	// is a new node of the matching type whose first field is the left and second the right operand.  The
+	// dispatch may be an if-chain, a switch, a table of constructors or a helper.
 	tt := p.SSAFunc(p.Method("ast", "BooleanLogicExprNode", "TypeTransformBool"))
 	c.Analysed(FnName(tt))
-	fi := ComputeFacts(tt)
 	opFld := p.Field("ast", "BooleanLogicExprNode", "op")
 	for _, w := range []struct{ op, node string }{{"AndOp", "AndExprNode"}, {"OrOp", "OrExprNode"}} {
 		k := constInt(p.Obj("ast", w.op))
 		nodeT := p.Named("ast", w.node)
-		ok := false
-		for _, r := range returnsOf(tt) {
-			mi, isMI := r.Results[0].(*ssa.MakeInterface)
-			if !isMI || namedOf(mi.X.Type()) != nodeT {
-				continue
+		operandName := func(v ssa.Value) string {
+			v = assertSource(v)
+			if f, base := loadedField(v); f != nil && base == ssa.Value(tt.Params[0]) && (f.Name() == "left" || f.Name() == "right") {
+				return f.Name()
 			}
-			// under op == k
-			if !fi.HoldsWhere(r.Block(), func(f Fact) bool {
-				bo, isB := f.V.(*ssa.BinOp)
-				if f.Kind != "true" || !f.Pol || !isB || bo.Op != token.EQL {
-					return false
-				}
-				ff, _ := loadedField(bo.X)
-				kk, isK := bo.Y.(*ssa.Const)
-				if !sameVar(ff, opFld) || !isK || kk.Value == nil {
-					return false
-				}
-				v, _ := constant.Int64Val(kk.Value)
-				return v == k
-			}) {
-				continue
-			}
-			// left <- (typed) node.left, right <- node.right
-			alloc, isA := mi.X.(*ssa.Alloc)
-			if !isA {
-				continue
-			}
-			okL, okR := false, false
-			for _, ref := range *alloc.Referrers() {
-				fa, isFA := ref.(*ssa.FieldAddr)
-				if !isFA {
-					continue
-				}
-				for _, r2 := range *fa.Referrers() {
-					st, isSt := r2.(*ssa.Store)
-					if !isSt {
-						continue
-					}
-					f, _ := fieldOfAddr(fa)
-					src := assertSource(st.Val)
-					sf, _ := loadedField(src)
-					if f != nil && sf != nil && f.Name() == sf.Name() {
-						if f.Name() == "left" {
-							okL = true
-						}
-						if f.Name() == "right" {
-							okR = true
-						}
-					}
-				}
-			}
-			ok = okL && okR
+			return ""
 		}
-		c.Check(ok, "C12.LISTENER", FnName(tt)+": "+w.op, p.Pos(tt.Pos()), w.op+" becomes "+w.node+"{left: left, right: right}", w.op+" is not typed as "+w.node+" with operands in order")
+		oracle := func(v ssa.Value) (AV, bool) {
+			switch x := v.(type) {
+			case *ssa.UnOp:
+				if f, base := loadedField(x); sameVar(f, opFld) && base == ssa.Value(tt.Params[0]) {
+					return avInt(k), true
+				}
+				if nm := operandName(x); nm != "" {
+					return AV{Kind: "nonnil", Sym: "operand:" + nm}, true
+				}
+			case *ssa.TypeAssert:
+				if !x.CommaOk {
+					return AV{}, false
+				}
+				nm := ""
+				if it, isI := x.AssertedType.Underlying().(*types.Interface); isI {
+					for i := 0; i < it.NumMethods(); i++ {
+						if strings.HasPrefix(it.Method(i).Name(), "TypeTransform") {
+							nm = "transformable"
+						}
+					}
+				}
+				if nm == "transformable" {
+					// operands that are already typed: nothing to transform
+					return AV{Kind: "tuple", Tup: []AV{{Kind: "nil"}, avBool(false)}}, true
+				}
+				if on := operandName(x.X); on != "" {
+					return AV{Kind: "tuple", Tup: []AV{{Kind: "nonnil", Sym: "operand:" + on}, avBool(true)}}, true
+				}
+			case *ssa.Call:
+				if cal, _ := calleeOf(x.Common()); cal != nil && isErrorCtor(cal) {
+					return AV{Kind: "nonnil"}, true
+				}
+			}
+			return AV{}, false
+		}
+		res, typeOf, fieldsOf, err := DecideObjects(tt, oracle)
+		construct := FnName(tt) + ": " + w.op
+		if err != "" {
+			c.Undecided("C12.LISTENER", construct, p.Pos(tt.Pos()), "the transform could not be evaluated for this connective: "+err)
+			continue
+		}
+		ok, why := true, ""
+		switch {
+		case len(res) != 2 || res[1].Kind != "nil":
+			ok, why = false, fmt.Sprintf("the transform of %s with two bool operands reports an error (%v)", w.op, res)
+		case typeOf(res[0]) == nil || namedOf(typeOf(res[0])) != nodeT:
+			ok, why = false, fmt.Sprintf("%s is not typed as a new %s (got %v)", w.op, w.node, typeOf(res[0]))
+		default:
+			f := fieldsOf(res[0])
+			if f[".f0"].Sym != "operand:left" || f[".f1"].Sym != "operand:right" {
+				ok, why = false, fmt.Sprintf("%s is typed as %s but its operands are (%s, %s) instead of (left, right)", w.op, w.node, f[".f0"].Sym, f[".f1"].Sym)
+			}
+		}
+		c.Check(ok, "C12.LISTENER", construct, p.Pos(tt.Pos()), w.op+" becomes "+w.node+"{left, right}", w.op+" is not typed as "+w.node+" with operands in order: "+why)
 	}
 	// typing of NOT: the typed node is NotExprNode wrapping the typed operand — no operator flipping
 	// (null makes ordered comparisons false, so `not (a < b)` is not `a >= b`)
 	nt := p.SSAFunc(p.Method("ast", "UntypedNotExprNode", "TypeTransformBool"))
 	c.Analysed(FnName(nt))
 	notT := p.Named("ast", "NotExprNode")
-	fiN := ComputeFacts(nt)
-	okN, nOK := true, 0
-	for _, r := range returnsOf(nt) {
-		if classifyErr(fiN, r.Block(), r.Results[1], 0) == errNonNil {
-			continue
+	{
+		// decided by running the transform on an operand that is a bool node needing no further transformation
+		operand := func(v ssa.Value) bool {
+			v = assertSource(v)
+			f, base := loadedField(v)
+			return f != nil && f.Name() == "expr" && base == ssa.Value(nt.Params[0])
 		}
-		mi, isMI := r.Results[0].(*ssa.MakeInterface)
-		if !isMI || namedOf(mi.X.Type()) != notT {
-			okN = false
-			continue
-		}
-		wraps := false
-		if alloc, isA := mi.X.(*ssa.Alloc); isA {
-			for _, ref := range *alloc.Referrers() {
-				if fa, isFA := ref.(*ssa.FieldAddr); isFA {
-					for _, r2 := range *fa.Referrers() {
-						if st, isSt := r2.(*ssa.Store); isSt {
-							if f, base := loadedField(assertSource(st.Val)); f != nil && f.Name() == "expr" && base == ssa.Value(nt.Params[0]) {
-								wraps = true
-							}
+		oracle := func(v ssa.Value) (AV, bool) {
+			switch x := v.(type) {
+			case *ssa.UnOp:
+				if operand(x) {
+					return AV{Kind: "nonnil", Sym: "operand:expr"}, true
+				}
+			case *ssa.TypeAssert:
+				if !x.CommaOk {
+					return AV{}, false
+				}
+				if it, isI := x.AssertedType.Underlying().(*types.Interface); isI {
+					for i := 0; i < it.NumMethods(); i++ {
+						if strings.HasPrefix(it.Method(i).Name(), "TypeTransform") {
+							return AV{Kind: "tuple", Tup: []AV{{Kind: "nil"}, avBool(false)}}, true
 						}
 					}
 				}
+				if operand(x.X) {
+					return AV{Kind: "tuple", Tup: []AV{{Kind: "nonnil", Sym: "operand:expr"}, avBool(true)}}, true
+				}
+				// an assertion to a concrete node type (operator flipping looks at the operand's kind): yes
+				if ov := assertSource(x.X); operand(ov) || operand(x.X) {
+					return AV{Kind: "tuple", Tup: []AV{{Kind: "nonnil", Sym: "operand:expr"}, avBool(true)}}, true
+				}
+			case *ssa.Call:
+				if cal, _ := calleeOf(x.Common()); cal != nil && isErrorCtor(cal) {
+					return AV{Kind: "nonnil"}, true
+				}
 			}
+			return AV{}, false
 		}
-		if wraps {
-			nOK++
+		res, typeOf, fieldsOf, err := DecideObjects(nt, oracle)
+		if err != "" {
+			c.Undecided("C12.LISTENER", FnName(nt), p.Pos(nt.Pos()), "the transform could not be evaluated: "+err)
 		} else {
-			okN = false
+			okN := len(res) == 2 && res[1].Kind == "nil" && typeOf(res[0]) != nil && namedOf(typeOf(res[0])) == notT
+			if okN {
+				wraps := false
+				for _, fv := range fieldsOf(res[0]) {
+					if fv.Sym == "operand:expr" {
+						wraps = true
+					}
+				}
+				okN = wraps
+			}
+			c.Check(okN, "C12.LISTENER", FnName(nt), p.Pos(nt.Pos()), "the result is NotExprNode{expr: typed operand}", "`not (P)` is not always typed as the negation node around P (e.g. the operator is flipped instead): with null operands `not (a < b)` differs from `a >= b`")
 		}
 	}
-	c.Check(okN && nOK > 0, "C12.LISTENER", FnName(nt), p.Pos(nt.Pos()), "every successful result is NotExprNode{expr: typed operand}", "`not (P)` is not always typed as the negation node around P (e.g. the operator is flipped instead): with null operands `not (a < b)` differs from `a >= b`")
 	c.Floor("C12.LISTENER", 7)
 }
 
@@ -883,6 +959,7 @@ func globalMapStringKeys(p *Prog, g *ssa.Global) []string {
 func listenerFuncs(c *Ctx) []*ssa.Function {
 	lst := c.P.Named("ast", "ToBoltListener")
 	var out []*ssa.Function
+	seen := map[*ssa.Function]bool{}
 	for _, fn := range c.prodFuncs("ast") {
 		root := fn
 		for root.Parent() != nil {
@@ -890,6 +967,22 @@ func listenerFuncs(c *Ctx) []*ssa.Function {
 		}
 		if root.Signature.Recv() != nil && namedOf(root.Signature.Recv().Type()) == lst {
 			out = append(out, fn)
+			seen[fn] = true
+		}
+	}
+	// ... and the free functions of the package they call (decoders moved out of the listener)
+	for i := 0; i < len(out); i++ {
+		for _, call := range callsIn(out[i]) {
+			callee := call.Common().StaticCallee()
+			if callee == nil || seen[callee] || callee.Blocks == nil || callee.Pkg == nil || callee.Pkg.Pkg.Name() != "ast" || callee.Signature.Recv() != nil {
+				continue
+			}
+			if c.P.isGenerated(callee.Pos()) || c.P.isTestSupport(callee.Pos()) || strings.HasPrefix(callee.Name(), "zzControl") {
+				continue
+			}
+			seen[callee] = true
+			out = append(out, callee)
+			out = append(out, callee.AnonFuncs...)
 		}
 	}
 	return out
